@@ -223,6 +223,15 @@ impl Write for File {
             Ok(n)
         }
     }
+    /// Same result as the default `write_all` over `write` above (the model never returns `Interrupted` and never
+    /// returns Ok(0) for a non-empty buffer), without decoding the bit-packed io::Error (`is_interrupted()`), which is
+    /// very expensive for CBMC (measured: > 25 min vs minutes).
+    fn write_all(&mut self, buf: &[u8]) -> io::Result<()> {
+        match self.write(buf) {
+            Ok(_) => Ok(()),
+            Err(e) => Err(e),
+        }
+    }
     fn flush(&mut self) -> io::Result<()> {
         Ok(())
     }
